@@ -1407,6 +1407,9 @@ static void svt_av1_sleep(const int milliseconds) {
 void dec_sync_all_threads(EbDecHandle *dec_handle_ptr) {
     DecMtFrameData *dec_mt_frame_data =
         &dec_handle_ptr->main_frame_buf.cur_frame_bufs[0].dec_mt_frame_data;
+    /* the last thread leaving the LR stage may still be resetting the start flags under temp_mutex */
+    svt_block_on_mutex(dec_mt_frame_data->temp_mutex);
+    svt_release_mutex(dec_mt_frame_data->temp_mutex);
     SVT_VERIF_HB_RELEASE(&dec_mt_frame_data->end_flag);
     dec_mt_frame_data->end_flag = EB_TRUE;
 
